@@ -138,7 +138,13 @@ package keeper
 //@ requires [amount_non_negative_and_commission_a_percentage] amount >= 0 && 0 <= reporter.Reporters[bytes(addr)].CommissionRate && reporter.Reporters[bytes(addr)].CommissionRate <= 100000000000000000000
 //@ modifies reporter.SelectorTips
 
+// powsum(a, n): total power of the first n reporters of aggregate a; allpow(rs, k): of the first k aggregates.
+// The code adds in uint64: the invariants are stated modulo 2^64.
+//@ define powsum(a, n) = sum m in [0, n) :: a.Reporters[m].Power
+//@ define allpow(rs, k) = sum j in [0, k) :: powsum(rs[j], len(rs[j].Reporters))
+
 //@ func (k Keeper).AllocateRewards(ctx, reports, reward, fromPool) (err)
+//@ uses sum_congruence
 //@ requires [reward_non_negative] reward >= 0
 //@ requires [reports_present] forall j in [0, len(reports)) :: reports[j] != nil && forall m in [0, len(reports[j].Reporters)) :: reports[j].Reporters[m] != nil
 //@ modifies reporter.SelectorTips, bank.bal
@@ -147,10 +153,15 @@ package keeper
 //@ ensures [pool_debited_exactly_the_reward] err == nil && module(fromPool) != module("tips_escrow_pool") ==> bank.bal[module(fromPool)] == old(bank.bal[module(fromPool)]) - reward && bank.bal[module("tips_escrow_pool")] == old(bank.bal[module("tips_escrow_pool")]) + reward
 //@ requires [a_reporter_has_one_power_in_all_given_aggregates] forall j in [0, len(reports)) :: forall m in [0, len(reports[j].Reporters)) :: reports[j].Reporters[m].Power == someint("power_of", reports[j].Reporters[m].Reporter)
 //@ loop 0 "for _, report := range reports"
+//@ loop 0 invariant [total_power_counts_every_report_so_far] totalPower == mod(allpow(reports, $i), 18446744073709551616)
 //@ loop 0 invariant [collected_power_is_the_reporters_own] forall a string :: has(reportersMap, a) ==> reportersMap[a].Power == someint("power_of", a)
 //@ loop 1 "for _, r := range report.Reporters"
+//@ loop 1 invariant [total_power_counts_every_report_so_far] totalPower == mod(allpow(reports, $i0) + powsum(reports[$i0], $i), 18446744073709551616)
 //@ loop 1 invariant [collected_power_is_the_reporters_own] forall a string :: has(reportersMap, a) ==> reportersMap[a].Power == someint("power_of", a)
+//@ ensures [every_share_is_taken_of_the_total_power_of_all_reports] called(CalculateRewardAmount) ==> arg(CalculateRewardAmount, totalPower) == mod(allpow(reports, len(reports)), 18446744073709551616)
 //@ loop 3 "for i, reporter := range sortedReporters"
+//@ loop 3 invariant [every_share_is_taken_of_the_total_power_of_all_reports] totalPower == mod(allpow(reports, len(reports)), 18446744073709551616) && (called(CalculateRewardAmount) ==> arg(CalculateRewardAmount, totalPower) == totalPower)
+//@ loop 2 invariant [total_power_is_complete] totalPower == mod(allpow(reports, len(reports)), 18446744073709551616)
 //@ loop 3 invariant [paid_so_far_is_total_distributed] (i < len(sortedReporters) ==> argsum(AllocateTip, amount) == totaldist) && (i == len(sortedReporters) && i > 0 ==> argsum(AllocateTip, amount) == reward * 1000000000000000000) && (i == 0 ==> !called(AllocateTip) && totaldist == 0)
 //@ loop 2 "for addr, data := range reportersMap"
 //@ loop 2 invariant [collected_addresses_are_visited_keys] forall j in [0, len(sortedReporters)) :: seen(sortedReporters[j].address)
